@@ -43,7 +43,11 @@ pub fn run_check(ctx: &Ctx) -> i32 {
     let mut report = Report::new();
     let (mut states, mut transitions) = (0usize, 0u64);
     let mut per_root = Vec::new();
-    for (name, prefix, d) in [("factory-fresh", vec![], d1), ("one-fabric-commissioned", c08::honest_prefix(), d1), ("two-fabrics-commissioned", two_fabrics(), d2)] {
+    // also from the middle of a commissioning: a NOC added under the fail-safe, nothing committed yet
+    let pending_first = vec![Op::ArmP, Op::CsrP, Op::RootP, Op::AddNocP];
+    let mut pending_second = c08::honest_prefix();
+    pending_second.extend([Op::OpenWindowC(1), Op::ArmP, Op::CsrP, Op::RootP, Op::AddNocP]);
+    for (name, prefix, d) in [("factory-fresh", vec![], d1), ("one-fabric-commissioned", c08::honest_prefix(), d1), ("two-fabrics-commissioned", two_fabrics(), d2), ("first-fabric-pending-under-the-fail-safe", pending_first, d2), ("second-fabric-pending-under-the-fail-safe", pending_second, d2)] {
         let r = match c08::bfs(prefix, d, if ctx.tier == Tier::Quick { 8_000 } else { 400_000 }, 7) {
             Ok(r) => r,
             Err(e) => {
@@ -65,7 +69,7 @@ pub fn run_check(ctx: &Ctx) -> i32 {
         .set("exhaustive", json!(true))
         .set("roots", Value::Array(per_root))
         .set("samples", json!([{"history": ["ArmP", "CsrP", "RootP", "AddNocP", "Tick"]}]))
-        .set("rule", json!(format!("every history of at most {} operations of the C08 alphabet (incl. RemoveFabric of the own and of another fabric, fail-safe expiry by the clock / ArmFailSafe(0) / RevokeCommissioning, restart) from a factory-fresh node and a node with one fabric, and of at most {} operations from a node with two fabrics; after every operation each usable secure session of the device must be bound to the existing fabric it was established for", d1, d2)));
+        .set("rule", json!(format!("every history of at most {} operations of the C08 alphabet (incl. RemoveFabric of the own and of another fabric, fail-safe expiry by the clock / ArmFailSafe(0) / RevokeCommissioning, restart) from a factory-fresh node and a node with one fabric, and of at most {} operations from a node with two fabrics and from the middle of the commissioning of a first / a second fabric (NOC added, not completed); after every operation each usable secure session of the device must be bound to the existing fabric it was established for, and to none that the reference says is gone (rolled back or removed)", d1, d2)));
     ev.assume("operational sessions are set up by the harness (pre-established keys) as soon as a fabric exists, as a commissioner does before CommissioningComplete; session-resumption records and subscriptions of a removed fabric are not part of this check (no real CASE / subscription traffic in this world)");
     if states < 20 {
         eprintln!("MACHINERY: vacuous C07 run");
